@@ -132,6 +132,11 @@ Definition isC1P_model (rows : matrix) (nc : nat) : bool :=
   end.
 End SolverMirror.
 
+(* reorder_sets itself: "if len(sets) <= 2: return sets", otherwise the PQ-tree (parameter pq_tree) *)
+Definition reorder_sets_model (pq_tree : list (list nat) -> option (list (list nat))) (F : list (list nat))
+  : option (list (list nat)) :=
+  if length F <=? 2 then Some F else pq_tree F.
+
 (* the contract of reorder_sets, as a checker and a reference decider (for the direct contract test):
    result is a rearrangement of the family in which, for every element, the sets containing it are consecutive *)
 Definition countk (k : list nat) (l : list (list nat)) : nat := length (filter (lnat_eqb k) l).
